@@ -86,9 +86,10 @@ def classify(rej, scratch=None):
             return {"C07"}
         if stalls:
             return {"C08"}
-        if mode == "stream":
-            return {"C14", "C04"}
-        return {"C05"}
+        props = {"C14", "C04"} if mode == "stream" else {"C05"}
+        if cfg.get("acl_on") and e.get("code") not in ("OK", "Canceled", "NotFound"):
+            props |= {"C07"}   # an authorised subscriber's stream was ended: what it was owed is not delivered
+        return props
     if ev == "hang":
         what = e.get("what", "")
         if "target was removed" in what:
